@@ -171,14 +171,14 @@ func cancellingGarbage(r *rand.Rand, L int) [][]byte {
 	for k == i || k == j {
 		k = 1 + r.IntN(L-1)
 	}
-	mk(map[int]byte{i: 0x80, j: 0x80})                   // sum 256, xor 0
-	mk(map[int]byte{1: 0x80, L - 1: 0x80})               // same, first and last body byte
-	mk(map[int]byte{i: 0xFF, j: 0x01})                   // sum 256
-	mk(map[int]byte{0: 0x01, L - 1: 0xFF})               // low header bit + last byte: sum 256
-	mk(map[int]byte{i: 0x55, j: 0x55})                   // xor 0
-	mk(map[int]byte{i: 0x40, j: 0x40, k: 0x80})          // sum 256
-	mk(map[int]byte{0: 0x1F, i: 0xE1})                   // header low bits 0x1F + 0xE1 = 256
-	mk(map[int]byte{i: 0x01, j: 0x02, k: 0x03})          // xor 0
+	mk(map[int]byte{i: 0x80, j: 0x80})          // sum 256, xor 0
+	mk(map[int]byte{1: 0x80, L - 1: 0x80})      // same, first and last body byte
+	mk(map[int]byte{i: 0xFF, j: 0x01})          // sum 256
+	mk(map[int]byte{0: 0x01, L - 1: 0xFF})      // low header bit + last byte: sum 256
+	mk(map[int]byte{i: 0x55, j: 0x55})          // xor 0
+	mk(map[int]byte{i: 0x40, j: 0x40, k: 0x80}) // sum 256
+	mk(map[int]byte{0: 0x1F, i: 0xE1})          // header low bits 0x1F + 0xE1 = 256
+	mk(map[int]byte{i: 0x01, j: 0x02, k: 0x03}) // xor 0
 	all := map[int]byte{}
 	for x := 1; x < L; x++ {
 		all[x] = 0x10 // (L-1)*16: 752 for 48, 1520 for 96 - not 0 mod 256, but xor 0 when L-1 is even... kept as plain garbage
